@@ -57,7 +57,7 @@ def runtime_words(rng, g):
 AUDIOS = ["head", "mid", "t5", "t4", "cut", "tail"]
 
 
-def make_case(rng, idx, beams, big):
+def make_case(rng, idx, beams, big, synth=None):
     cfg = {"hmm": os.path.join(sut.REPO, "model", "en-us"),
            "dict": os.path.join(sut.REPO, "tests", "data", "turtle.dic"), "loglevel": "FATAL", "compallsen": True}
     cfg.update({"open": {"beam": 0, "pbeam": 0, "wbeam": 0}, "default": {},
@@ -78,14 +78,19 @@ def make_case(rng, idx, beams, big):
         ln = rng.choice([6000, 9000, 12000, 14000])
     else:
         off, ln = 0, n
-    s = list(decmatrix.audio_defs()) + ["init " + decmatrix.hx(json.dumps(cfg))] + gl + ["net", "senscr 1", "start"]
+    s = list(decmatrix.audio_defs()) + ["init " + decmatrix.hx(json.dumps(cfg))] + gl + ["net", "senscr 1"]
+    # a third of the cases run on synthetic acoustics: the scorer's output is replaced by a seeded function of (frame,
+    # senone) - dense random costs, all-equal costs (ties everywhere), or a few cheap senones among dear ones
+    if synth:
+        s.append("senmode %s %d %d" % (synth, rng.randrange(1, 10 ** 6), rng.choice([40, 300, 1500, 6000])))
+    s.append("start")
     # a couple of pieces: the recursion does not care, the decoder must not either
     cut = rng.choice([ln, ln // 2, 410])
     s += ["feed %s %d %d i16 0 0" % (aud, off, min(cut, ln))]
     if cut < ln:
         s += ["feed %s %d %d f32 0 0" % (aud, off + cut, ln - cut)]
     s += ["end", "result fin", "senscr 0", "free"]
-    return "%s-%s-%s#%d" % (gk, aud, beams, idx), s
+    return "%s-%s-%s%s#%d" % (gk, aud, beams, ("-" + synth) if synth else "", idx), s
 
 
 def model_check(ctx, quick):
@@ -115,6 +120,8 @@ def run(ctx):
         n_open, n_pruned = (24, 6) if quick else (140, 40)
         for i in range(n_open):
             cases.append(make_case(rng, i, "open", big=(not quick and i % 30 == 29)))
+        for i in range(n_open // 2):
+            cases.append(make_case(rng, i * 2 + 1, "open", big=False, synth=["hash", "sparse", "flat", "hash"][i % 4]))
         for i in range(n_pruned):
             cases.append(make_case(rng, n_open + i, rng.choice(["default", "narrow"]), big=False))
     by_id = dict(cases)
